@@ -33,156 +33,41 @@ def run(model: Model, rep: Report, tier: str) -> None:
         ".separated. minimal() is checked for one grouping key and a size-first policy. Truth of each verdict is C04's rules, re-run."
     )
     rep.trusted_base = ["itertools.combinations/groupby/chain, range", "C04 (re-run here)"]
-    rep.floors = {"R15.1": 1, "R15.2": 6, "R15.3": 3, "R4.1": 1, "R4.2": 1}
-    f = model.func(f"{CI}.d_separations")
+    rep.floors = {"R15.1": 2, "R15.2": 1, "R15.3": 1, "R4.1": 1, "R4.2": 1}
+    from ..refcmp import load_reference, run_table
+    from .common import NXMG
+
+    load_reference(model, "yvref.c15", "c15_ref.py")
     sa = SetAlg(rewrite=rewriter(graph_rewrite))
-    x = var("%x")
-    expected_stop = {None: NONE, 0: const(1), 1: const(2), 3: const(4)}
-    pipeline_done = False
-    for k, want in expected_stop.items():
-        ev = Evaluator(model, primitives=set(GRAPH_PRIMS) | {f"{CI}.are_d_separated", PS})
-        G = graph_var(ev, "graph")
-        rets = return_paths(ev.run(f, {"graph": G, "max_conditions": const(k)}))
-        cons = construct(f, f"size-bound:k={k}")
-        if len(rets) != 1:
-            rep.unknown("R15.2", cons, f"{len(rets)} return paths", loc(f))
-            continue
-        v = rets[0].value
-        calls = [s for s in subterms(v) if s[0] == "call" and s[1] == PS]
-        if not calls:
-            rep.unknown("R15.2", cons, "no powerset(...) call found", loc(f))
-            continue
-        kw = kwargs_of(calls[0])
-        stop, start, rev = kw.get("stop"), kw.get("start"), kw.get("reverse")
-        problems = []
-        if stop != want:
-            exp = "None (no limit)" if want == NONE else f"{want[1]} (exclusive) so that sets of size {k} are still tried"
-            problems.append(f"with max_conditions={k} the exclusive bound passed to powerset is {show(stop)}, expected {exp}")
-        if start != const(0):
-            problems.append(f"search does not start with the empty conditioning set (start={show(start)})")
-        if rev not in (const(False), None):
-            problems.append("sizes are enumerated in decreasing order (first hit is not a minimum-size set)")
-        (rep.refuted if problems else rep.proven)("R15.2", cons, "; ".join(problems), loc(f), sample={"powerset call": short(show(calls[0]), 240)})
-        if pipeline_done:
-            continue
-        pipeline_done = True
-        # ---- R15.1 on the (k=None) term
-        cons = construct(f, "enumeration")
-        problems = []
-        t = v
-        while t[0] == "call" and t[1] == "iter":
-            t = t[2][0]
-        if not (t[0] == "accum" and t[1] == "concat" and t[2] == ("listlit", ())):
-            problems.append("generator is not one loop over node pairs: " + short(show(t), 120))
-        else:
-            (pat, it, conds), = t[4]
-            core = it
-            while core[0] == "call" and core[1].split(".")[-1] in ("tqdm", "list", "iter", "sorted") and core[2]:
-                core = core[2][0]
-            if not (core[0] == "call" and core[1].endswith("combinations") and core[2][1] == const(2) and sa.canon_top(("setof", core[2][0])) == sa.canon_top(("setof", ("V", G)))):
-                problems.append("pairs are not combinations(V(G), 2) (each unordered pair exactly once): " + short(show(core), 120))
-            if conds:
-                problems.append("pairs are filtered")
-            inner = t[3]
-            if not (inner[0] == "accum" and inner[1] == "concat"):
-                problems.append("no inner search over conditioning sets")
-            else:
-                (cpat, cit, cconds), = inner[4]
-                a_, b_ = pat[1] if pat[0] == "tuplelit" else (None, None)
-                if inner[5] != const(True):
-                    problems.append("the search does not stop at the first separating set of a pair (several judgements per pair, not minimum-first)")
-                if not (cit[0] == "call" and cit[1] == PS):
-                    problems.append("conditioning sets do not come from powerset")
-                else:
-                    pool = kwargs_of(cit).get("iterable")
-                    want_pool = f_and(sa.member(x, ("V", G)), f_not(sa.eq_atom(x, a_)), f_not(sa.eq_atom(x, b_)))
-                    eq, row, _ = compare(sa.member(x, pool), want_pool)
-                    if not eq:
-                        problems.append(f"conditioning sets are not drawn from V ∖ {{a, b}}: differs for a node with [{show_row(row)}]")
-                payload = inner[3]
-                j = payload[1][0] if payload[0] == "listlit" and len(payload[1]) == 1 else None
-                if not (j and j[0] == "call" and j[1] == f"{CI}.are_d_separated"):
-                    problems.append("yielded value is not the judgement of are_d_separated")
-                else:
-                    jk = kwargs_of(j)
-                    if jk.get("graph") != G or {jk.get("a"), jk.get("b")} != {a_, b_} or jk.get("conditions") != cpat:
-                        problems.append("are_d_separated is not called with (graph, a, b, the enumerated set)")
-                    if tuple(cconds) != (("attr", j, "separated"),) and tuple(cconds) != (("truth", ("attr", j, "separated")),):
-                        problems.append("a judgement is yielded without testing that it is a separation: " + short(show(cconds), 100))
-        (rep.refuted if problems else rep.proven)("R15.1", cons, "; ".join(problems), loc(f), sample={"generator": short(show(v), 500)})
-    # ---- powerset's own contract
-    pf = model.func(PS)
-    ev = Evaluator(model)
-    it_ = typed(ev, "iterable", ("iter", None))
-    s_ = typed(ev, "stop", "int")
-    st_ = typed(ev, "start", "int")
-    for revflag in (False,):
-        rets = return_paths(ev.run(pf, {"iterable": it_, "start": st_, "stop": s_, "reverse": const(revflag), "use_tqdm": const(False)}))
-        cons = construct(pf, "exclusive-bound")
-        problems = []
-        for r in rets:
-            rngs = [s for s in subterms(r.value) if s[0] == "call" and s[1] == "range"]
-            if not rngs:
-                problems.append("no range(start, stop) schedule")
-            for g in rngs:
-                if len(g[2]) != 2 or g[2][0] != st_:
-                    problems.append(f"sizes start at {show(g[2][0]) if g[2] else '?'}, not at `start`")
-                elif g[2][1] != s_:
-                    up = g[2][1]
-                    if up[0] == "call" and up[1] == "min" and s_ in up[2]:
-                        other = [z for z in up[2] if z != s_][0]
-                        # min(stop, n+1) is harmless, min(stop, n) loses the full set
-                        if not (other[0] == "op" and other[1] == "+" and other[3] == const(1)):
-                            problems.append(f"an explicit `stop` is lowered to {show(up)}: the set of all remaining nodes (size n) is never tried")
-                    else:
-                        problems.append(f"the exclusive bound is {show(up)}, not the given `stop`")
-            combos = [s for s in subterms(r.value) if s[0] == "call" and s[1].endswith("combinations")]
-            for c in combos:
-                if c[2][1][0] != "var":
-                    problems.append("sizes are not the loop index r (ascending)")
-        (rep.refuted if problems else rep.proven)("R15.2", cons, "; ".join(sorted(set(problems))), loc(pf))
-    ev = Evaluator(model)
-    it_ = typed(ev, "iterable", ("iter", None))
-    rets = return_paths(ev.run(pf, {"iterable": it_, "start": const(0), "stop": NONE, "reverse": const(False), "use_tqdm": const(False)}))
-    ok = bool(rets) and all(any(s[0] == "call" and s[1] == "range" and len(s[2]) == 2 and s[2][1][0] == "op" and s[2][1][1] == "+" and s[2][1][3] == const(1) and s[2][1][2][0] == "len" for s in subterms(r.value)) for r in rets)
-    (rep.proven if ok else rep.refuted)("R15.2", construct(pf, "no-limit"), "" if ok else "without a limit the bound must be len(s) + 1 (sizes up to the whole set)", loc(pf))
-    # ---- R15.3 minimal
-    mf = model.func(f"{CI}.minimal")
-    ev = Evaluator(model)
-    J = typed(ev, "judgements", ("iter", ("cls", "y0.struct.DSeparationJudgement")))
-    pol = var("policy")
-    rets = return_paths(ev.run(mf, {"judgements": J, "policy": pol}))
-    problems = []
-    for r in rets:
-        v = r.value
-        if not (v[0] == "comp" and v[1] == "set"):
-            problems.append("result is not one element per group")
-            continue
-        (pat, it, conds), = v[3]
-        if not (it[0] == "call" and it[1].endswith("groupby")):
-            problems.append("judgements are not grouped")
-            continue
-        srt = it[2][0]
-        gkey = it[2][1] if len(it[2]) > 1 else dict(it[3]).get("key")
-        skey = dict(srt[3]).get("key") if srt[0] == "call" and srt[1] == "sorted" else None
-        if srt[0] != "call" or srt[1] != "sorted" or skey != gkey or gkey is None:
-            problems.append("groupby needs its input sorted by the same key it groups by (otherwise a pair appears in several groups)")
-        elt = v[2]
-        if not (elt[0] == "call" and elt[1] == "min" and dict(elt[3]).get("key") is not None):
-            problems.append("a group is not reduced to its policy-minimum")
-    (rep.refuted if problems or not rets else rep.proven)("R15.3", construct(mf, "one-per-pair"), "; ".join(sorted(set(problems))), loc(mf))
-    gk = model.func(f"{CI}._judgement_grouper")
-    ev = Evaluator(model)
-    j = typed(ev, "judgement", ("cls", "y0.struct.DSeparationJudgement"))
-    rets = return_paths(ev.run(gk, {"judgement": j}))
-    ok = len(rets) == 1 and rets[0].value == ("tuplelit", (("attr", j, "left"), ("attr", j, "right")))
-    (rep.proven if ok else rep.refuted)("R15.3", construct(gk, "pair-key"), "" if ok else "groups are not keyed by exactly (left, right)", loc(gk))
-    for q in (f"{CI}._len_lex", f"{CI}._topological_policy"):
-        pfn = model.func(q)
+    G = ("cls", NXMG)
+    J = ("cls", "y0.struct.DSeparationJudgement")
+    OI = ("union", ("int", "none"))
+
+    def mk(model_, prims):
+        return lambda: Evaluator(model_, primitives=set(GRAPH_PRIMS) | set(prims))
+
+    words = ("every unordered pair of nodes once; conditioning sets drawn from V ∖ {a, b} through powerset with the exclusive bound max_conditions + 1 "
+             "(no bound without a limit), smallest first; each tested by are_d_separated on the same graph; only separations are reported")
+    table = [
+        ("R15.1", f"{CI}.d_separations", "implied_separations", {"graph": G, "max_conditions": OI, "verbose": "bool", "return_all": ("const", False)},
+         {f"{CI}.are_d_separated", PS}, "enumeration:first-per-pair", words + "; the search for a pair ends at its first separating set"),
+        ("R15.1", f"{CI}.d_separations", "implied_separations", {"graph": G, "max_conditions": OI, "verbose": "bool", "return_all": ("const", True)},
+         {f"{CI}.are_d_separated", PS}, "enumeration:all", words + "; every separating set within the bound is reported when all are asked for"),
+        ("R15.2", PS, "subsets_by_size", {"iterable": ("iter", None), "start": "int", "stop": OI, "reverse": "bool", "use_tqdm": "bool", "tqdm_kwargs": None}, (),
+         "size-schedule", "subsets of size start, ..., stop-1 in this order (stop exclusive and never lowered; without it every size up to the whole set); "
+         "decreasing sizes only on request"),
+        ("R15.3", f"{CI}.minimal", "one_per_pair", {"judgements": ("iter", J), "policy": None}, (), "one-per-pair",
+         "one judgement per (left, right): input sorted and grouped by the SAME pair key, each group reduced to its policy-minimum; default policy = fewest conditions first"),
+    ]
+    run_table(model, rep, table, "yvref.c15", mk, sa, construct=construct, loc=loc)
+    # the topological policy orders by the number of conditions first, too
+    pfn = model.func(f"{CI}._topological_policy") if model.has_func(f"{CI}._topological_policy") else None
+    if pfn is not None:
         ev = Evaluator(model)
-        j = typed(ev, "judgement", ("cls", "y0.struct.DSeparationJudgement"))
-        rets = return_paths(ev.run(pfn, {"judgement": j}))
+        j = typed(ev, "judgement", J)
+        rets = return_paths(ev.run(pfn, {"judgement": j, "order": var("order")}))
         ok = bool(rets) and all(r.value[0] == "tuplelit" and r.value[1] and r.value[1][0] == ("len", ("attr", j, "conditions")) for r in rets)
-        (rep.proven if ok else rep.refuted)("R15.3", construct(pfn, "size-first"), "" if ok else "built-in policy does not order by the number of conditions first (the kept set need not have minimum size)", loc(pfn))
+        (rep.proven if ok else rep.refuted)("R15.3", construct(pfn, "size-first"), "" if ok else
+                                            "the topological policy does not order by the number of conditions first (the kept set need not have minimum size)", loc(pfn))
     # verdicts: C04's pipeline
     c04.analyse_are_d_separated(model, rep)
